@@ -169,6 +169,9 @@ package netceptor
 //@        ( (acqof("firewallLock", fwdec(s, md)) == 2 && md.FromService != "unreach" && arg2.Problem == ProblemRejected)
 //@       || (fwaccept(acqof("firewallLock", fwdec(s, md))) && old(md.ToNode == s.nodeID) && md.FromNode != s.nodeID && arg2.Problem == ProblemServiceUnknown
 //@           && acqof("listenerLock", !(md.ToService in s.listenerRegistry) || ctxerr(s.listenerRegistry[md.ToService].context) != nil)) )
+// nothing that can block (the delivery to a socket's receive channel) happens with a lock held: a reader that is slow or
+// gone must not keep the listener registry, and with it Close, ListenPacket and every other delivery, waiting
+//@   site block * NOLOCKHELD: [C17 C07] requires nolocksheld()
 //@   ensures ATMOSTONE: [C02] ownsends() <= 1
 //@   ensures DELIVER: [C02 C12 C16] ownsends() == 1 ==> fwaccept(acqof("firewallLock", fwdec(s, md))) && old(md.ToNode == s.nodeID)
 //@        && acqof("listenerLock", md.ToService in s.listenerRegistry)
@@ -187,6 +190,7 @@ package netceptor
 //@   requires s != nil && md != nil
 //@   site call sendUnreachable EXPIRED: [C10] requires md.HopsToLive == 0 && md.FromService != "unreach" && arg1 == md.FromNode && echoes(arg2, md) && arg2.Problem == ProblemExpiredInTransit
 //@   site call translateDataFromMessage ENC: [C10] requires md.HopsToLive > 0 && arg1 == md
+//@   site block * NOLOCKHELD: [C17 C07] requires nolocksheld()
 //@   ghostflag noticed set call:sendUnreachable
 //@   ensures EXPIRYNOTICED: [C10] old(md.HopsToLive) == 0 && md.FromService != "unreach" ==> flag("noticed")
 //@   ensures COUNT: [C10] ownsends() <= fwdcount(old(md.HopsToLive))
